@@ -58,6 +58,9 @@ def run(tier, seed):
     # any change of bilform's value for some pair of elements breaks the consistency that C03 composes)
     from checks import sl_proved
     guarded(chk, 'proved part bilform (contracts of C01)', sl_proved.add_obligations, chk, "C01", tier, seed)
+    # link (A2): the load vector is InitialOperator.linform per element; its contract (C08's proved clauses) is discharged here too
+    from checks import c08
+    guarded(chk, 'proved part linform (contracts of C08)', c08.add_obligations, chk)
     from vlib import smt
     smt.close_pool()
     try:
